@@ -22,7 +22,7 @@ import os
 import re
 import sys
 
-REPO = "/repo"
+REPO = os.environ.get("SV_REPO_OVERRIDE", "/repo")      # override: test hook for mutation experiments
 FORMAT_RS = os.path.join(REPO, "statime-linux/src/metrics/format.rs")
 CLOCK_ACC_RS = os.path.join(REPO, "statime/src/datastructures/common/clock_accuracy.rs")
 TIME_SRC_RS = os.path.join(REPO, "statime/src/datastructures/common/time_source.rs")
